@@ -115,6 +115,50 @@ def enum_member(desc, tier, seed):
                           f'after fixing, enumerating, decoding and releasing: {None if Xr is None else len(Xr)} rows, originally {len(X)}', ntf)
             except Exception as e:  # noqa
                 ctx.check('C04.enumeration-after-release-equals-original', False, witf + ['released'], f'{type(e).__name__}: {e}', ntf)
+    # three variables fixed at once, every value combination (also contradictory ones: the restricted problem is then
+    # empty): the rows listed are rows of the unrestricted enumeration that comply with EVERY fixed value
+    fixable = []
+    for k, dv in enumerate(dvs):
+        if dv.is_discrete and len(fixable) < 3:
+            try:
+                _, gpt = make_processor(desc, 'COMPLETE')
+                gpt.fix_des_var(gpt.des_vars[k], 0)
+                fixable.append(k)
+            except Exception:  # noqa
+                pass
+    if len(fixable) == 3 and A is not None:
+        import itertools as _it
+        combos = list(_it.product(*[range(dvs[k].n_opts) for k in fixable]))[:27]
+        for vals in combos:
+            fixed = dict(zip(fixable, vals))
+            witf = ['COMPLETE', 'fixed-three', sorted(fixed.items())]
+            ntf = (desc.label, 'fix3', tuple(sorted(fixed.items())))
+            try:
+                b3, gp3 = make_processor(desc, 'COMPLETE')
+                all_dvs = list(gp3.des_vars)
+                for k, v in fixed.items():
+                    gp3.fix_des_var(all_dvs[k], v)
+                X3, _ = rows_of(gp3)
+                got = sorted(map(tuple, X3)) if X3 is not None else []
+            except Exception as e:  # noqa
+                ctx.check('C04.fixed-enumeration-total', False, witf, f'{type(e).__name__}: {e}', ntf)
+                continue
+            allowed, must = set(), set()
+            for x, a in zip(X, A):
+                row = tuple(v for k, v in enumerate(x) if k not in fixed)
+                if all((not a[k]) or abs(x[k] - v) < 1e-9 for k, v in fixed.items()):
+                    allowed.add(row)
+                if all(a[k] and abs(x[k] - v) < 1e-9 for k, v in fixed.items()):
+                    must.add(row)
+            ctx.check('C04.fixed-rows-comply-with-every-fixed-value', set(got) <= allowed, witf,
+                      f'rows {sorted(set(got) - allowed)[:3]} are not rows of the unrestricted enumeration with the fixed values (or the variable inactive)', ntf)
+            ctx.check('C04.rows-with-all-fixed-values-active-are-listed', must <= set(got), witf,
+                      f'rows {sorted(must - set(got))[:3]} (all three variables active with the fixed values) are missing', ntf)
+            try:
+                nv3 = gp3.get_n_valid_designs(with_fixed=True)
+                ctx.check('C04.fixed-n-valid-equals-rows', nv3 == len(got), witf, f'n_valid={nv3}, rows={len(got)}', ntf)
+            except Exception as e:  # noqa
+                ctx.check('C04.fixed-n-valid-equals-rows', False, witf, f'{type(e).__name__}: {e}', ntf)
     ctx.samples.append(dict(desc=desc.label, rows=len(X), reference_architectures=len(ref)))
     return ctx.result()
 
